@@ -1,8 +1,10 @@
 //! C05: `*` matches any character sequence, everything else matches only itself.
-//! Monitor: every return value of `humphrey::krauss::wildcard_match` is compared with an O(nm)
+//! Monitor: every return value of `humphrey::krauss::wildcard_match` and of `Route::route_matches` (the
+//! router's entry point for route patterns) is compared with an O(nm)
 //! dynamic-programming glob matcher over `char`s.
 
 use humphrey::krauss::wildcard_match;
+use humphrey::route::Route;
 use hvcommon::args::Args;
 use hvcommon::json::J;
 use hvcommon::report::Report;
@@ -68,11 +70,24 @@ fn check(r: &mut Report, p: &[char], t: &[char], space: &str) {
         Ok(g) if g == expect => {}
         Ok(g) => {
             let sig = if expect { "C05/false-negative" } else { "C05/false-positive" };
-            r.violation(sig, format!("wildcard_match({:?},{:?}) = {} but the pattern {} the text", ps, ts, g, if expect { "matches" } else { "does not match" }), ex(&g.to_string()), replay);
+            r.violation(sig, format!("wildcard_match({:?},{:?}) = {} but the pattern {} the text", ps, ts, g, if expect { "matches" } else { "does not match" }), ex(&g.to_string()), replay.clone());
         }
         Err(e) => {
             let m = panic_msg(&*e);
-            r.violation("C05/panic", format!("wildcard_match({:?},{:?}) panicked: {}", ps, ts, m), ex(&format!("panic: {}", m)), replay);
+            r.violation("C05/panic", format!("wildcard_match({:?},{:?}) panicked: {}", ps, ts, m), ex(&format!("panic: {}", m)), replay.clone());
+        }
+    }
+    // the entry point the router uses for route patterns (`Route::route_matches` on the registered String)
+    r.count("route_matches_calls", 1);
+    match std::panic::catch_unwind(|| Route::route_matches(&ps, &ts)) {
+        Ok(g) if g == expect => {}
+        Ok(g) => {
+            let sig = if expect { "C05/route_matches:false-negative" } else { "C05/route_matches:false-positive" };
+            r.violation(sig, format!("{:?}.route_matches({:?}) = {} but the pattern {} the text", ps, ts, g, if expect { "matches" } else { "does not match" }), ex(&g.to_string()), replay.clone());
+        }
+        Err(e) => {
+            let m = panic_msg(&*e);
+            r.violation("C05/route_matches:panic", format!("{:?}.route_matches({:?}) panicked: {}", ps, ts, m), ex(&format!("panic: {}", m)), replay);
         }
     }
 }
